@@ -262,14 +262,16 @@ impl Hypercore {
     requires:
         old(self).wf()
     ensures:
-        // already read-only: nothing happens at all
-        old(self).key_pair.secret is None ==> r is Ok && r->Ok_0 == false && *final(self) == *old(self),
-        // writable: the secret is gone from memory BEFORE anything is written, both header slots are rewritten
-        // (zero padded to 4096 bytes) with a header that carries no secret, and the entries are truncated away
-        old(self).key_pair.secret is Some ==> final(self).key_pair.secret is None && final(self).header.key_pair.secret is None
+        // C12, stated from the property and not from the code: whatever the prior history - including a core recovered
+        // from a crash inside an earlier call, whose non-current header slot still holds the key - once the call RETURNS
+        // no storage file contains the secret key. Nothing but rewriting both header slots can guarantee that, so:
+        // the secret is gone from memory BEFORE anything is written, both header slots are rewritten (zero padded to
+        // 4096 bytes) with a header that carries no secret, and the entries are truncated away in between
+        final(self).key_pair.secret is None && final(self).header.key_pair.secret is None
             && final(self).key_pair.public == old(self).key_pair.public,
-        old(self).key_pair.secret is Some ==> (r is Err) == final(self).storage.failed@,
-        old(self).key_pair.secret is Some && r is Ok ==> r->Ok_0 == true && final(self).wf()
+        (r is Err) == final(self).storage.failed@,
+        // the result tells whether the core was writable ("a second call reports that nothing changed")
+        r is Ok ==> r->Ok_0 == (old(self).key_pair.secret is Some) && final(self).wf()
             && (exists|ib: Seq<StoreInfo>, it_: Seq<StoreInfo>, io: Seq<StoreInfo>|
                 #![trigger ops_of(ib), ops_of(it_), ops_of(io)]
                 final(self).storage.journal@ == old(self).storage.journal@ + ops_of(ib) + ops_of(it_) + ops_of(io)
